@@ -130,4 +130,7 @@ theorem ofInt_zero (F : Fmt) : FV.ofInt F 0 = .fin 0 := by
 theorem ofInt_exact (F : Fmt) (hp : 1 ≤ F.p) (he : F.emin ≤ 0) (hmax : (F.p : ℤ) ≤ F.emax + 1) (n : ℤ) (hn0 : n ≠ 0)
     (hn : n.natAbs < 2^F.p) : FV.ofInt F n = .fin n := round_exact F hp he hmax n hn0 hn false
 
+/-- `v` is a float64 value: converting it to float64 changes nothing -/
+def IsF64 (v : FV) : Prop := FV.conv f64 v = v
+
 end Sig
